@@ -18,7 +18,10 @@
    One dispatch decision ([a_step_ok]) keeps it and establishes the defining equations at its
    step; later steps do not disturb them (Local_frame of the static engine at the project with
    the amended inputs made explicit); the rescan is the static rescan at the remembered project
-   ([resync_a_inv] through mark_Pre). *)
+   ([resync_a_inv] through mark_Pre).
+   Failing steps ([fails], builds with --keep-going): a failed run drops the trace and sets the
+   flag [afail]; [ia_nf] = the run that recorded a trace did not fail; the rescan clears all
+   flags, and inside a build the flag of a step that has not had its turn is still clear. *)
 From Coq Require Import List NArith Bool Lia.
 From SV Require Import model.Engine proofs.EngineProofs proofs.EngineAmendProofs.
 Import ListNotations.
@@ -30,13 +33,17 @@ Proof. induction a as [|x a IH]; cbn; [reflexivity|]. rewrite IH. reflexivity. Q
 Section AmendFull.
   Variable run : N -> list (option N) -> list (option N) -> N -> N.
   Variable amend : N -> list (option N) -> list N.
+  Variable fails : N -> list (option N) -> list (option N) -> bool.
 
   Notation eff := (eff amend).
   Notation eproj := (eproj amend).
   Notation extra_now := (extra_now amend).
-  Notation a_step_build := (a_step_build run amend false).
-  Notation a_build := (a_build run amend false).
-  Notation decide := (decide amend false).
+  Notation fails_now := (fails_now amend fails).
+  Notation a_step_build := (a_step_build run amend fails false).
+  Notation a_build := (a_build run amend fails false).
+  Notation decide := (decide amend fails false).
+  Notation Local_a := (Local_a run amend fails).
+  Notation Finished_a := (Finished_a run amend fails).
   Notation Local := (Local run).
   Notation trace_valid := (trace_valid run).
   Notation WFA := (WFA amend).
@@ -57,22 +64,13 @@ Section AmendFull.
     ia_tv : forall s t, In s proj -> tr (abase y) (sid s) = Some t -> trace_valid (remb y s) t;
     ia_or : forall s t, In s proj -> tr (abase y) (sid s) = Some t ->
                         adyn y (sid s) = amend (sid s) (declared_contents s t);
+    ia_nf : forall s t, In s proj -> tr (abase y) (sid s) = Some t ->
+                        fails (sid s) (map snd (t_inp t)) (map snd (t_env t)) = false;
     ia_K : forall s, In s proj -> K_step (abase y) (remb y s);
     ia_cl : forall s, In s proj -> stt (abase y) (sid s) = Succeeded ->
                       ready proj (abase y) (remb y s) = true;
     ia_bf : forall done s rest, proj = done ++ s :: rest ->
                                 forall p, In p (adyn y (sid s)) -> ~ In p (outs (s :: rest)) }.
-
-  (* the defining equations of a finished build at [s], amended inputs made explicit *)
-  Definition LocalA (proj : project) (b : sys) (s : step) : Prop :=
-    Local (eproj proj b) b (eff b s).
-
-  Lemma LocalA_Finished (proj : project) (b : sys) :
-    (forall s, In s proj -> LocalA proj b s) -> Finished_a run amend proj b.
-  Proof.
-    intros H. unfold Finished_a, Finished. intros s' Hs'. unfold Engine.eproj in Hs'.
-    apply in_map_iff in Hs'. destruct Hs' as (s & <- & Hs). exact (H s Hs).
-  Qed.
 
   (* a trace that matches the present gives the outputs *)
   Lemma out_from_trace (s' : step) (b : sys) (t : trace) :
@@ -105,13 +103,18 @@ Section AmendFull.
     apply map_ext_in. intros p Hp. symmetry. apply H. exact Hp.
   Qed.
 
-  Lemma remb_other (y : asys) (b : sys) (fl : N -> bool) (s q : step) (l : list N) :
-    sid q <> sid s -> remb (mkA b (upd (adyn y) (sid s) l) fl) q = remb y q.
-  Proof. intros H. unfold remb. cbn [adyn]. rewrite (upd_other _ _ _ _ H). reflexivity. Qed.
+  Lemma remb_adyn (y y' : asys) (s : step) (l : list N) :
+    adyn y' (sid s) = l -> remb y' s = mkStep (sid s) (inp s ++ l) (envn s) (out s).
+  Proof. intros H. unfold remb. rewrite H. reflexivity. Qed.
 
-  Lemma remb_self (y : asys) (b b0 : sys) (fl : N -> bool) (s : step) :
-    remb (mkA b (upd (adyn y) (sid s) (extra_now b0 s)) fl) s = eff b0 s.
-  Proof. unfold remb. cbn [adyn]. rewrite upd_same. reflexivity. Qed.
+  Lemma remb_same (y y' : asys) (s : step) :
+    adyn y' (sid s) = adyn y (sid s) -> remb y' s = remb y s.
+  Proof. intros H. unfold remb. rewrite H. reflexivity. Qed.
+
+  Lemma fails_ingr (id : N) (b : sys) (ii ee : list N) (t : trace) :
+    t_inp t = ingredients (fs b) ii -> t_env t = ingredients (ev b) ee ->
+    fails id (map snd (t_inp t)) (map snd (t_env t)) = fails id (map (fs b) ii) (map (ev b) ee).
+  Proof. intros Hi He. rewrite Hi, He, !map_snd_ingredients. reflexivity. Qed.
 
   Section OneProject.
     Variable proj : project.
@@ -147,13 +150,69 @@ Section AmendFull.
         + intros id Hid. cbn. apply upd_other. exact Hid.
         + intros id Hid. cbn. apply upd_other. exact Hid.
       - repeat split; auto. intros id Hid. cbn. apply upd_other. exact Hid.
+      - repeat split; auto. intros id Hid. cbn. apply upd_other. exact Hid.
+    Qed.
+
+    Lemma a_step_afail (s : step) (y : asys) (id : N) :
+      id <> sid s -> afail (a_step_build proj s y) id = afail y id.
+    Proof.
+      intros Hid. unfold Engine.a_step_build.
+      destruct (decide proj s y); cbn [afail]; try reflexivity; apply upd_other; exact Hid.
+    Qed.
+
+    (* a run that ends without success (deferred or failed): the trace is dropped, the amended
+       inputs of this run are remembered *)
+    Lemma InvA_forget (done rest : project) (s : step) (y : asys) (f1 f2 : N -> bool) :
+      proj = done ++ s :: rest -> stt (abase y) (sid s) = Pending -> InvA proj y ->
+      let b := abase y in
+      InvA proj (mkA (mkSys (fs b) (ev b) (upd (tr b) (sid s) None) (stt b))
+                     (upd (adyn y) (sid s) (extra_now b s)) f1 f2).
+    Proof.
+      intros Hp Est HI b. pose proof HA as (Hid & Hnd & _).
+      assert (Hs : In s proj). { rewrite Hp. apply in_or_app. right. left. reflexivity. }
+      pose proof (ia_tv proj y HI) as Itv. pose proof (ia_or proj y HI) as Ior.
+      pose proof (ia_nf proj y HI) as Inf.
+      pose proof (ia_K proj y HI) as IK. pose proof (ia_cl proj y HI) as Icl.
+      pose proof (ia_bf proj y HI) as Ibf. fold b in Itv, Ior, Inf, IK, Icl, Est.
+      set (b' := mkSys (fs b) (ev b) (upd (tr b) (sid s) None) (stt b)).
+      set (y' := mkA b' (upd (adyn y) (sid s) (extra_now b s)) f1 f2).
+      assert (Hro : forall q, sid q <> sid s -> remb y' q = remb y q).
+      { intros q Hne. apply remb_same. cbn [y' adyn]. apply upd_other. exact Hne. }
+      assert (Hrm : forall q, ready proj b q = true -> ready proj b' q = true).
+      { intros q. apply ready_mono; [reflexivity|]. intros id H. exact H. }
+      constructor; change (abase y') with b'.
+      - intros q t Hq Ht. cbn [b' tr] in Ht. destruct (N.eq_dec (sid q) (sid s)) as [E|E].
+        + rewrite E, upd_same in Ht. discriminate.
+        + rewrite (Hro q E). rewrite (upd_other _ _ _ _ E) in Ht. exact (Itv q t Hq Ht).
+      - intros q t Hq Ht. cbn [b' tr] in Ht. cbn [y' adyn].
+        destruct (N.eq_dec (sid q) (sid s)) as [E|E].
+        + rewrite E, upd_same in Ht. discriminate.
+        + rewrite (upd_other _ _ _ _ E). rewrite (upd_other _ _ _ _ E) in Ht. exact (Ior q t Hq Ht).
+      - intros q t Hq Ht. cbn [b' tr] in Ht. destruct (N.eq_dec (sid q) (sid s)) as [E|E].
+        + rewrite E, upd_same in Ht. discriminate.
+        + rewrite (upd_other _ _ _ _ E) in Ht. exact (Inf q t Hq Ht).
+      - intros q Hq Hsq0. assert (Hsq : stt b (sid q) = Succeeded) by exact Hsq0.
+        destruct (N.eq_dec (sid q) (sid s)) as [E|E]; [rewrite E in Hsq; congruence|].
+        rewrite (Hro q E). destruct (IK q Hq Hsq) as (t & Ht & Hrest).
+        exists t. split; [|exact Hrest]. cbn [b' tr]. rewrite (upd_other _ _ _ _ E). exact Ht.
+      - intros q Hq Hsq0. assert (Hsq : stt b (sid q) = Succeeded) by exact Hsq0.
+        destruct (N.eq_dec (sid q) (sid s)) as [E|E]; [rewrite E in Hsq; congruence|].
+        rewrite (Hro q E). apply Hrm. exact (Icl q Hq Hsq).
+      - intros done' s' rest' Hp' p Hpa. cbn [y' adyn] in Hpa.
+        destruct (N.eq_dec (sid s') (sid s)) as [E|E].
+        + rewrite E, upd_same in Hpa.
+          assert (Hs' : In s' proj). { rewrite Hp'. apply in_or_app. right. left. reflexivity. }
+          pose proof (sid_unique proj s' s Hid Hs' Hs E) as ->.
+          apply (eff_before done' rest' s b p Hp'). cbn [inp Engine.eff].
+          apply in_or_app. right. exact Hpa.
+        + rewrite (upd_other _ _ _ _ E) in Hpa. exact (Ibf done' s' rest' Hp' p Hpa).
     Qed.
 
     Lemma a_step_ok (done rest : project) (s : step) (y : asys) :
-      proj = done ++ s :: rest -> InvA proj y ->
-      InvA proj (a_step_build proj s y) /\ LocalA proj (abase (a_step_build proj s y)) s.
+      proj = done ++ s :: rest -> InvA proj y -> afail y (sid s) = false ->
+      InvA proj (a_step_build proj s y) /\ Local_a proj (a_step_build proj s y) s.
     Proof.
-      intros Hp HI. pose proof HA as (Hid & Hnd & _).
+      intros Hp HI Hfl. pose proof HA as (Hid & Hnd & _).
       assert (Hs : In s proj). { rewrite Hp. apply in_or_app. right. left. reflexivity. }
       pose proof (out_nodup proj s Hnd Hs) as Hnds.
       assert (Hself : forall z p, In p (inp (eff z s)) -> ~ In p (out s)).
@@ -161,63 +220,86 @@ Section AmendFull.
       assert (Hdecl : forall p, In p (inp s) -> ~ In p (out s)).
       { intros p Hin. apply (Hself empty_sys). cbn [inp Engine.eff]. apply in_or_app. left. exact Hin. }
       pose proof (ia_tv proj y HI) as Itv. pose proof (ia_or proj y HI) as Ior.
+      pose proof (ia_nf proj y HI) as Inf.
       pose proof (ia_K proj y HI) as IK. pose proof (ia_cl proj y HI) as Icl.
       pose proof (ia_bf proj y HI) as Ibf.
+      pose proof (InvA_forget done rest s y) as Hforget.
       unfold Engine.a_step_build, Engine.decide. set (b := abase y) in *.
       destruct (stt b (sid s)) eqn:Est; cbn [is_succ].
       2:{ (* already SUCCEEDED *)
-        split; [exact HI|]. cbn [abase]. fold b.
+        split; [exact HI|]. unfold Engine.Local_a. cbv zeta. fold b.
         destruct (IK s Hs Est) as (t & Ht & Hi & He & Ho).
-        cbn [inp envn out remb] in Hi, He, Ho.
         pose proof (Ior s t Hs Ht) as Hor.
         rewrite (declared_contents_ingr s t (fs b) _ Hi) in Hor.
         pose proof (remb_eff y b s Hor) as Hre.
-        unfold LocalA, Engine.Local. rewrite ready_eproj. rewrite <- Hre.
-        rewrite (Icl s Hs Est). split; [exact Est|].
+        assert (Hnf : fails_now b s = false).
+        { unfold Engine.fails_now. rewrite <- Hre.
+          pose proof (Inf s t Hs Ht) as H0. rewrite (fails_ingr (sid s) b _ _ t Hi He) in H0. exact H0. }
+        rewrite Hnf. rewrite <- Hre.
+        rewrite (Icl s Hs Est). split; [exact Est|]. split; [exact Hfl|].
         apply (out_from_trace (remb y s) b t (Itv s t Hs Ht) Hi He Ho). }
       cbn [andb orb]. rewrite orb_false_r.
       destruct (ready proj b s) eqn:Er; cbn [negb].
       2:{ (* a declared input is not available *)
-        split; [exact HI|]. cbn [abase]. fold b. unfold LocalA, Engine.Local. rewrite ready_eproj.
-        unfold Engine.eff at 1. rewrite ready_app, Er. exact Est. }
+        split; [exact HI|]. unfold Engine.Local_a. cbv zeta. fold b.
+        unfold Engine.eff at 1. rewrite ready_app, Er. cbn [andb]. split; [exact Est|exact Hfl]. }
       destruct (all_avail proj b (adyn y (sid s)) && can_skip (remb y s) b) eqn:Esk.
       - (* skip *)
         apply andb_true_iff in Esk. destruct Esk as [Hav Hcs].
         unfold can_skip in Hcs. cbn [sid remb] in Hcs. destruct (tr b (sid s)) as [t|] eqn:Et; [|discriminate].
         apply andb_true_iff in Hcs. destruct Hcs as [Hcs Ho]. apply andb_true_iff in Hcs.
-        destruct Hcs as [Hi He]. apply ingr_eqb_eq in Hi, He, Ho. cbn [inp envn out] in Hi, He, Ho.
+        destruct Hcs as [Hi He]. apply ingr_eqb_eq in Hi, He, Ho.
+        change (t_inp t = ingredients (fs b) (inp (remb y s))) in Hi.
+        change (t_env t = ingredients (ev b) (envn (remb y s))) in He.
+        change (t_out t = ingredients (fs b) (out (remb y s))) in Ho.
         pose proof (Ior s t Hs Et) as Hor.
         rewrite (declared_contents_ingr s t (fs b) _ Hi) in Hor.
         pose proof (remb_eff y b s Hor) as Hre.
         assert (Hrdy : ready proj b (remb y s) = true).
         { unfold remb. rewrite ready_app, Er, Hav. reflexivity. }
+        assert (Hnf : fails_now b s = false).
+        { unfold Engine.fails_now. rewrite <- Hre.
+          pose proof (Inf s t Hs Et) as H0. rewrite (fails_ingr (sid s) b _ _ t Hi He) in H0. exact H0. }
         set (b' := do_skip (remb y s) b).
+        set (y' := mkA b' (adyn y) (clear_flags proj s y) (upd (afail y) (sid s) false)).
         assert (Hmono : forall id, stt b id = Succeeded -> stt b' id = Succeeded).
         { intros id H. cbn. unfold upd. destruct (id =? sid s); [reflexivity|exact H]. }
         assert (Hrm : forall q, ready proj b q = true -> ready proj b' q = true).
         { intros q. apply ready_mono; [reflexivity|exact Hmono]. }
+        assert (Hrb : forall q, remb y' q = remb y q) by (intros q; reflexivity).
         split.
-        + constructor; cbn [abase adyn]; fold b'.
-          * intros q t0 Hq Ht0. exact (Itv q t0 Hq Ht0).
+        + constructor; change (abase y') with b'.
+          * intros q t0 Hq Ht0. rewrite Hrb. exact (Itv q t0 Hq Ht0).
           * intros q t0 Hq Ht0. exact (Ior q t0 Hq Ht0).
-          * intros q Hq Hsq. change (remb (mkA b' (adyn y) (clear_flags proj s y)) q) with (remb y q).
+          * intros q t0 Hq Ht0. exact (Inf q t0 Hq Ht0).
+          * intros q Hq Hsq. rewrite Hrb.
             destruct (N.eq_dec (sid q) (sid s)) as [E|E].
-            -- rewrite (sid_unique proj q s Hid Hq Hs E). exists t. cbn [remb inp envn out]. auto.
+            -- rewrite (sid_unique proj q s Hid Hq Hs E). exists t. auto.
             -- apply (IK q Hq). cbn in Hsq. rewrite (upd_other _ _ _ _ E) in Hsq. exact Hsq.
-          * intros q Hq Hsq. change (remb (mkA b' (adyn y) (clear_flags proj s y)) q) with (remb y q).
+          * intros q Hq Hsq. rewrite Hrb.
             apply Hrm. destruct (N.eq_dec (sid q) (sid s)) as [E|E].
             -- rewrite (sid_unique proj q s Hid Hq Hs E). exact Hrdy.
             -- apply (Icl q Hq). cbn in Hsq. rewrite (upd_other _ _ _ _ E) in Hsq. exact Hsq.
           * exact Ibf.
-        + cbn [abase]. fold b'. unfold LocalA, Engine.Local. rewrite ready_eproj.
+        + unfold Engine.Local_a. cbv zeta. change (abase y') with b'.
           assert (Hee : eff b' s = eff b s) by (apply eff_same; reflexivity).
+          change (fails_now b' s) with (fails_now b s). rewrite Hnf.
           rewrite Hee, <- Hre. rewrite (Hrm _ Hrdy). split; [cbn; apply upd_same|].
+          split; [cbn [y' afail]; apply upd_same|].
           apply (out_from_trace (remb y s) b t (Itv s t Hs Et) Hi He Ho).
-      - destruct (all_avail proj b (extra_now b s)) eqn:Eav.
+      - destruct (all_avail proj b (extra_now b s)) eqn:Eav; [destruct (fails_now b s) eqn:Efn|].
+        + (* the command fails *)
+          split; [exact (Hforget _ _ Hp eq_refl HI)|].
+          unfold Engine.Local_a. cbv zeta. cbn [abase afail].
+          set (b' := mkSys (fs b) (ev b) (upd (tr b) (sid s) None) (stt b)).
+          change (eff b' s) with (eff b s). change (fails_now b' s) with (fails_now b s).
+          change (ready proj b' (eff b s)) with (ready proj b (eff b s)).
+          unfold Engine.eff at 1. rewrite ready_app, Er, Eav. cbn [andb]. rewrite Efn.
+          split; [exact Est|apply upd_same].
         + (* run with the amended inputs of the present contents *)
           set (e := eff b s). set (b' := do_run run e b).
           set (y' := mkA b' (upd (adyn y) (sid s) (extra_now b s))
-                         (upd (clear_flags proj s y) (sid s) false)).
+                         (upd (clear_flags proj s y) (sid s) false) (upd (afail y) (sid s) false)).
           assert (Hrdy : ready proj b e = true).
           { unfold e, Engine.eff. rewrite ready_app, Er, Eav. reflexivity. }
           assert (Hmono : forall id, stt b id = Succeeded -> stt b' id = Succeeded).
@@ -235,9 +317,10 @@ Section AmendFull.
               exact (succeeded_reads_no_pending (eproj proj b) b e (remb y q) p (HE b)
                        (in_eproj b s Hs) Est Hrq Hpi).
             - intros Hps. apply Hne. f_equal. apply (out_unique proj q s p Hnd Hq Hs Hpi Hps). }
-          assert (Hrs : remb y' s = e) by (unfold y'; apply remb_self).
+          assert (Hrs : remb y' s = e).
+          { apply (remb_adyn y y' s). cbn [y' adyn]. apply upd_same. }
           assert (Hro : forall q, sid q <> sid s -> remb y' q = remb y q).
-          { intros q Hne. unfold y'. apply remb_other. exact Hne. }
+          { intros q Hne. apply remb_same. cbn [y' adyn]. apply upd_other. exact Hne. }
           split.
           * constructor; change (abase y') with b'.
             -- intros q t Hq Ht. destruct (N.eq_dec (sid q) (sid s)) as [E|E].
@@ -257,6 +340,13 @@ Section AmendFull.
                ++ rewrite (upd_other _ _ _ _ E). cbn [b' Engine.do_run tr] in Ht.
                   change (sid e) with (sid s) in Ht.
                   rewrite (upd_other _ _ _ _ E) in Ht. exact (Ior q t Hq Ht).
+            -- intros q t Hq Ht. destruct (N.eq_dec (sid q) (sid s)) as [E|E].
+               ++ rewrite (sid_unique proj q s Hid Hq Hs E) in *.
+                  cbn [b' Engine.do_run tr] in Ht. change (sid e) with (sid s) in Ht.
+                  rewrite upd_same in Ht. injection Ht as <-. cbn [t_inp t_env].
+                  rewrite !map_snd_ingredients. exact Efn.
+               ++ cbn [b' Engine.do_run tr] in Ht. change (sid e) with (sid s) in Ht.
+                  rewrite (upd_other _ _ _ _ E) in Ht. exact (Inf q t Hq Ht).
             -- intros q Hq Hsq. destruct (N.eq_dec (sid q) (sid s)) as [E|E].
                ++ rewrite (sid_unique proj q s Hid Hq Hs E) in *. rewrite Hrs.
                   cbn [b' Engine.do_run tr ev]. change (sid e) with (sid s). rewrite upd_same.
@@ -291,64 +381,36 @@ Section AmendFull.
                   apply (eff_before done' rest' s b p Hp'). cbn [inp Engine.eff].
                   apply in_or_app. right. exact Hpa.
                ++ rewrite (upd_other _ _ _ _ E) in Hpa. exact (Ibf done' s' rest' Hp' p Hpa).
-          * change (abase y') with b'. unfold LocalA, Engine.Local. rewrite ready_eproj.
+          * unfold Engine.Local_a. cbv zeta. change (abase y') with b'.
             assert (Hee : eff b' s = e).
             { unfold e. apply eff_same. intros p Hpi. apply Hfs. apply Hdecl. exact Hpi. }
-            rewrite Hee. rewrite (ready_mono proj b b' e); auto.
-            split; [cbn; apply upd_same|]. intros p Hpo. change (out e) with (out s) in Hpo.
+            assert (Hmap : map (fs b') (inp e) = map (fs b) (inp e)).
+            { apply map_ext_in. intros x Hx. apply Hinp_e. exact Hx. }
+            assert (Hnf : fails_now b' s = false).
+            { unfold Engine.fails_now. rewrite Hee, Hmap. exact Efn. }
+            rewrite Hnf, Hee. rewrite (ready_mono proj b b' e); auto.
+            split; [cbn; apply upd_same|]. split; [cbn [y' afail]; apply upd_same|].
+            intros p Hpo. change (out e) with (out s) in Hpo.
             unfold b'. rewrite (fs_do_run_out run e b p Hnds Hpo). fold b'.
-            change (ev b') with (ev b). f_equal. f_equal.
-            apply map_ext_in. intros x Hx. symmetry. apply Hinp_e. exact Hx.
+            change (ev b') with (ev b). rewrite Hmap. reflexivity.
         + (* deferred: an amended input is not available *)
+          split; [exact (Hforget _ _ Hp eq_refl HI)|].
+          unfold Engine.Local_a. cbv zeta. cbn [abase afail].
           set (b' := mkSys (fs b) (ev b) (upd (tr b) (sid s) None) (stt b)).
-          set (y' := mkA b' (upd (adyn y) (sid s) (extra_now b s)) (upd (adef y) (sid s) true)).
-          assert (Hrs : remb y' s = eff b s) by (unfold y'; apply remb_self).
-          assert (Hro : forall q, sid q <> sid s -> remb y' q = remb y q).
-          { intros q Hne. unfold y'. apply remb_other. exact Hne. }
-          assert (Hrm : forall q, ready proj b q = true -> ready proj b' q = true).
-          { intros q. apply ready_mono; [reflexivity|]. intros id H. exact H. }
-          split.
-          * constructor; change (abase y') with b'.
-            -- intros q t Hq Ht. cbn [b' tr] in Ht. destruct (N.eq_dec (sid q) (sid s)) as [E|E].
-               ++ rewrite E, upd_same in Ht. discriminate.
-               ++ rewrite (Hro q E). rewrite (upd_other _ _ _ _ E) in Ht.
-                  exact (Itv q t Hq Ht).
-            -- intros q t Hq Ht. cbn [b' tr] in Ht. cbn [y' adyn].
-               destruct (N.eq_dec (sid q) (sid s)) as [E|E].
-               ++ rewrite E, upd_same in Ht. discriminate.
-               ++ rewrite (upd_other _ _ _ _ E). rewrite (upd_other _ _ _ _ E) in Ht.
-                  exact (Ior q t Hq Ht).
-            -- intros q Hq Hsq0. assert (Hsq : stt b (sid q) = Succeeded) by exact Hsq0.
-               destruct (N.eq_dec (sid q) (sid s)) as [E|E]; [rewrite E in Hsq; congruence|].
-               rewrite (Hro q E). destruct (IK q Hq Hsq) as (t & Ht & Hrest).
-               exists t. split; [|exact Hrest]. cbn [b' tr]. rewrite (upd_other _ _ _ _ E). exact Ht.
-            -- intros q Hq Hsq0. assert (Hsq : stt b (sid q) = Succeeded) by exact Hsq0.
-               destruct (N.eq_dec (sid q) (sid s)) as [E|E]; [rewrite E in Hsq; congruence|].
-               rewrite (Hro q E). apply Hrm. exact (Icl q Hq Hsq).
-            -- intros done' s' rest' Hp' p Hpa. cbn [y' adyn] in Hpa.
-               destruct (N.eq_dec (sid s') (sid s)) as [E|E].
-               ++ rewrite E, upd_same in Hpa.
-                  assert (Hs' : In s' proj). { rewrite Hp'. apply in_or_app. right. left. reflexivity. }
-                  pose proof (sid_unique proj s' s Hid Hs' Hs E) as ->.
-                  apply (eff_before done' rest' s b p Hp'). cbn [inp Engine.eff].
-                  apply in_or_app. right. exact Hpa.
-               ++ rewrite (upd_other _ _ _ _ E) in Hpa. exact (Ibf done' s' rest' Hp' p Hpa).
-          * change (abase y') with b'. unfold LocalA, Engine.Local. rewrite ready_eproj.
-            assert (Hee : eff b' s = eff b s) by (apply eff_same; reflexivity).
-            rewrite Hee. unfold Engine.eff at 1.
-            assert (Hnr : ready proj b' (mkStep (sid s) (inp s ++ extra_now b s) (envn s) (out s)) = false).
-            { change (ready proj b' (mkStep (sid s) (inp s ++ extra_now b s) (envn s) (out s)))
-                with (ready proj b (mkStep (sid s) (inp s ++ extra_now b s) (envn s) (out s))).
-              rewrite ready_app, Er, Eav. reflexivity. }
-            rewrite Hnr. exact Est.
+          change (eff b' s) with (eff b s).
+          change (ready proj b' (eff b s)) with (ready proj b (eff b s)).
+          unfold Engine.eff at 1. rewrite ready_app, Er, Eav. cbn [andb].
+          split; [exact Est|apply upd_same].
     Qed.
 
     (* the defining equations at an earlier step survive a decision at a later one *)
-    Lemma LocalA_frame (done rest : project) (s q : step) (b b' : sys) :
-      proj = done ++ s :: rest -> In q done -> frame s b b' ->
-      LocalA proj b q -> LocalA proj b' q.
+    Lemma Local_a_frame (done rest : project) (s q : step) (y y' : asys) :
+      proj = done ++ s :: rest -> In q done -> frame s (abase y) (abase y') ->
+      afail y' (sid q) = afail y (sid q) ->
+      Local_a proj y q -> Local_a proj y' q.
     Proof.
-      intros Hp Hq Hfr HL. pose proof HA as (Hid & Hnd & _).
+      intros Hp Hq Hfr Hfl HL. pose proof HA as (Hid & Hnd & _).
+      set (b := abase y) in *. set (b' := abase y') in *.
       assert (Hs : In s proj). { rewrite Hp. apply in_or_app. right. left. reflexivity. }
       assert (Hqp : In q proj). { rewrite Hp. apply in_or_app. left. exact Hq. }
       assert (Hne : sid q <> sid s). { apply (sid_before done rest s q); [rewrite <- Hp; exact Hid|exact Hq]. }
@@ -359,31 +421,52 @@ Section AmendFull.
         { rewrite Hp, Hd. rewrite <- app_assoc. reflexivity. }
         apply (eff_before d1 (d2 ++ s :: rest) q z p Hp2 Hin).
         apply in_outs. exists s. split; [|exact Hps]. right. apply in_or_app. right. left. reflexivity. }
+      destruct Hfr as (Hfs & Hev & Hst & Htr).
       assert (Hee : eff b' q = eff b q).
-      { apply eff_same. intros p Hpi. destruct Hfr as (Hfs & _). apply Hfs.
+      { apply eff_same. intros p Hpi. apply Hfs.
         apply (Hbefore b p). cbn [inp Engine.eff]. apply in_or_app. left. exact Hpi. }
-      unfold LocalA in *. rewrite Hee.
-      assert (HL' : Local (eproj proj b) b' (eff b q)).
-      { apply (Local_frame run (eproj proj b) (eff b s) (eff b q) b b' (HE b)
-                 (in_eproj b s Hs) (in_eproj b q Hqp)); auto.
-        - intros p Hpi. exact (Hbefore b p Hpi).
-        - intros p Hpo Hps. cbn [out Engine.eff] in Hpo, Hps. apply Hne. f_equal.
-          apply (out_unique proj q s p Hnd Hqp Hs Hpo Hps). }
-      unfold Engine.Local in *. rewrite ready_eproj in *. exact HL'.
+      assert (Hmap : map (fs b') (inp (eff b q)) = map (fs b) (inp (eff b q))).
+      { apply map_ext_in. intros x Hx. apply Hfs. exact (Hbefore b x Hx). }
+      assert (Hmev : map (ev b') (envn q) = map (ev b) (envn q)).
+      { apply map_ext. intros n. apply Hev. }
+      assert (Hr : ready proj b' (eff b q) = ready proj b (eff b q)).
+      { apply ready_ext. intros p Hpi.
+        rewrite <- (avail_eproj amend proj b b' p), <- (avail_eproj amend proj b b p).
+        apply (avail_frame (eproj proj b) (eff b s) b b' p (HE b) (in_eproj b s Hs)).
+        - repeat split; assumption.
+        - exact (Hbefore b p Hpi). }
+      assert (Hout : forall p, In p (out q) -> fs b' p = fs b p).
+      { intros p Hpo. apply Hfs. intros Hps. apply Hne. f_equal.
+        apply (out_unique proj q s p Hnd Hqp Hs Hpo Hps). }
+      unfold Engine.Local_a in *. cbv zeta in *. fold b in HL. fold b'.
+      unfold Engine.fails_now in *. rewrite Hee, Hr, Hmap, Hmev, Hfl, (Hst _ Hne).
+      destruct (ready proj b (eff b q)); [|exact HL].
+      destruct (fails (sid q) (map (fs b) (inp (eff b q))) (map (ev b) (envn q))); [exact HL|].
+      destruct HL as (H1 & H2 & H3). split; [exact H1|]. split; [exact H2|].
+      intros p Hpo. rewrite (Hout p Hpo). exact (H3 p Hpo).
     Qed.
 
     Definition a_build_from (todo : project) (y : asys) : asys :=
       fold_left (fun y s => a_step_build proj s y) todo y.
 
+    Lemma sid_after (done rest : project) (s q : step) :
+      NoDup (map sid (done ++ s :: rest)) -> In q rest -> sid q <> sid s.
+    Proof.
+      rewrite map_app. intros Hnd Hq. apply NoDup_app_r in Hnd.
+      exact (not_in_tail_ids s rest Hnd q Hq).
+    Qed.
+
     Lemma a_build_from_ok :
       forall todo done y,
-        proj = done ++ todo -> InvA proj y -> (forall q, In q done -> LocalA proj (abase y) q) ->
+        proj = done ++ todo -> InvA proj y -> (forall q, In q done -> Local_a proj y q) ->
+        (forall q, In q todo -> afail y (sid q) = false) ->
         InvA proj (a_build_from todo y) /\
-        (forall q, In q proj -> LocalA proj (abase (a_build_from todo y)) q).
+        (forall q, In q proj -> Local_a proj (a_build_from todo y) q).
     Proof.
-      induction todo as [|s rest IH]; intros done y Hp HI Hdone.
+      pose proof HA as (Hid & _ & _).
+      induction todo as [|s rest IH]; intros done y Hp HI Hdone Hfl.
       - cbn. split; [exact HI|]. intros q Hq. apply Hdone. rewrite Hp, app_nil_r in Hq. exact Hq.
-      - destruct (a_step_ok done rest s y Hp HI) as [HI1 HL1].
+      - destruct (a_step_ok done rest s y Hp HI (Hfl s (or_introl eq_refl))) as [HI1 HL1].
         unfold a_build_from. cbn [fold_left].
         change (fold_left (fun y0 s0 => a_step_build proj s0 y0) rest (a_step_build proj s y))
           with (a_build_from rest (a_step_build proj s y)).
@@ -391,7 +474,10 @@ Section AmendFull.
         + rewrite <- app_assoc. exact Hp.
         + exact HI1.
         + intros q Hq. apply in_app_or in Hq. destruct Hq as [Hq|[<-|[]]]; [|exact HL1].
-          apply (LocalA_frame done rest s q (abase y) _ Hp Hq (a_step_frame s y)). apply Hdone. exact Hq.
+          apply (Local_a_frame done rest s q y _ Hp Hq (a_step_frame s y)); [|apply Hdone; exact Hq].
+          apply a_step_afail. apply (sid_before done rest s q); [rewrite <- Hp; exact Hid|exact Hq].
+        + intros q Hq. rewrite a_step_afail; [apply Hfl; right; exact Hq|].
+          apply (sid_after done rest s q); [rewrite <- Hp; exact Hid|exact Hq].
     Qed.
 
     Lemma a_build_from_world (todo : project) (y : asys) :
@@ -407,16 +493,17 @@ Section AmendFull.
       - apply IH. intros q Hq. apply Hsub. right. exact Hq.
     Qed.
 
-    (* A build of the ungated engine from a state that satisfies the invariant ends in a state
-       that satisfies it again and that is finished; sources and environment are untouched. *)
+    (* A build of the ungated engine from a state that satisfies the invariant and in which no
+       step is FAILED (every build starts by making the FAILED steps PENDING) ends in a state that
+       satisfies the invariant again and that is finished; sources and environment are untouched. *)
     Lemma a_build_ok (y : asys) :
-      InvA proj y ->
-      InvA proj (a_build proj y) /\ Finished_a run amend proj (abase (a_build proj y)) /\
+      InvA proj y -> (forall q, In q proj -> afail y (sid q) = false) ->
+      InvA proj (a_build proj y) /\ Finished_a proj (a_build proj y) /\
       same_world proj (abase y) (abase (a_build proj y)).
     Proof.
-      intros HI. change (a_build proj y) with (a_build_from proj y).
-      destruct (a_build_from_ok proj [] y eq_refl HI) as [H1 H2]; [intros q []|].
-      split; [exact H1|]. split; [apply LocalA_Finished; exact H2|].
+      intros HI Hfl. change (a_build proj y) with (a_build_from proj y).
+      destruct (a_build_from_ok proj [] y eq_refl HI) as [H1 H2]; [intros q []|exact Hfl|].
+      split; [exact H1|]. split; [exact H2|].
       apply a_build_from_world. auto.
     Qed.
 
@@ -487,7 +574,8 @@ Section AmendFull.
       InvA proj y ->
       InvA proj (resync_a proj y w) /\
       (forall p, is_output proj p = false -> fs (abase (resync_a proj y w)) p = fst w p) /\
-      (forall n, ev (abase (resync_a proj y w)) n = snd w n).
+      (forall n, ev (abase (resync_a proj y w)) n = snd w n) /\
+      (forall id, afail (resync_a proj y w) id = false).
     Proof.
       intros HI. destruct (resync_a_base false y w) as [Hb Hd].
       pose proof (resync_Pre run (rp y) (abase y) w (WF_rp y HI) (InvA_Pre y HI)) as (Htv & HK & Hcl).
@@ -495,19 +583,22 @@ Section AmendFull.
       assert (Hr : forall s, remb (resync_a proj y w) s = remb y s).
       { intros s. unfold remb. rewrite Hd. reflexivity. }
       assert (Hin : forall s, In s proj -> In (remb y s) (rp y)) by (intros s Hs; apply in_map; exact Hs).
-      split; [constructor|split].
+      split; [constructor|split; [|split]].
       - intros s t Hs Ht. rewrite Hr. exact (Htv (remb y s) t (Hin s Hs) Ht).
       - intros s t Hs Ht. rewrite Hd. apply (ia_or proj y HI s t Hs). rewrite Hb in Ht. exact Ht.
+      - intros s t Hs Ht. apply (ia_nf proj y HI s t Hs). rewrite Hb in Ht. exact Ht.
       - intros s Hs. rewrite Hr. exact (HK (remb y s) (Hin s Hs)).
       - intros s Hs Hst. rewrite Hr. rewrite <- (ready_rp y). exact (Hcl (remb y s) (Hin s Hs) Hst).
       - intros done s rest Hp p Hpa. rewrite Hd in Hpa. exact (ia_bf proj y HI done s rest Hp p Hpa).
       - intros p Hpo. unfold resync_a. cbn [abase fs]. rewrite Hpo. reflexivity.
       - intros n. reflexivity.
+      - intros id. reflexivity.
     Qed.
 
     Lemma empty_InvA : InvA proj empty_asys.
     Proof.
       constructor; cbn.
+      - intros s t _ H. discriminate.
       - intros s t _ H. discriminate.
       - intros s t _ H. discriminate.
       - intros s _ H. cbn in H. discriminate.
@@ -517,21 +608,21 @@ Section AmendFull.
 
     Lemma build_world_a_inv (w : world) (y : asys) :
       InvA proj y ->
-      let y' := build_world_a run amend false proj w y in
-      InvA proj y' /\ Finished_a run amend proj (abase y') /\
+      let y' := build_world_a run amend fails false proj w y in
+      InvA proj y' /\ Finished_a proj y' /\
       (forall p, is_output proj p = false -> fs (abase y') p = fst w p) /\
       (forall n, ev (abase y') n = snd w n).
     Proof.
       intros HI y'. unfold y', build_world_a.
-      destruct (resync_a_inv y w HI) as (HI1 & Hf1 & He1).
-      destruct (a_build_ok (resync_a proj y w) HI1) as (HI2 & HF & [Hw1 Hw2]).
+      destruct (resync_a_inv y w HI) as (HI1 & Hf1 & He1 & Hfl1).
+      destruct (a_build_ok (resync_a proj y w) HI1 (fun q _ => Hfl1 (sid q))) as (HI2 & HF & [Hw1 Hw2]).
       split; [exact HI2|]. split; [exact HF|]. split.
       - intros p Hpo. rewrite <- (Hw1 p Hpo). apply Hf1. exact Hpo.
       - intros n. rewrite <- Hw2. apply He1.
     Qed.
 
     Lemma worlds_a_inv (ws : list world) (y : asys) :
-      InvA proj y -> InvA proj (fold_left (fun s x => build_world_a run amend false proj x s) ws y).
+      InvA proj y -> InvA proj (fold_left (fun s x => build_world_a run amend fails false proj x s) ws y).
     Proof.
       revert y. induction ws as [|w ws IH]; intros y HI; [exact HI|].
       cbn [fold_left]. apply IH. apply build_world_a_inv. exact HI.
@@ -541,15 +632,15 @@ Section AmendFull.
        last world on top of what the earlier builds left gives the result of building it on
        nothing. *)
     Theorem amend_equiv_scratch (ws : list world) (w : world) :
-      same_result proj
-        (abase (build_world_a run amend false proj w
-                  (fold_left (fun s x => build_world_a run amend false proj x s) ws empty_asys)))
-        (abase (build_world_a run amend false proj w empty_asys)).
+      same_result_a proj
+        (build_world_a run amend fails false proj w
+           (fold_left (fun s x => build_world_a run amend fails false proj x s) ws empty_asys))
+        (build_world_a run amend fails false proj w empty_asys).
     Proof.
       pose proof (worlds_a_inv ws empty_asys empty_InvA) as HI.
       destruct (build_world_a_inv w _ HI) as (_ & F1 & S1 & E1).
       destruct (build_world_a_inv w empty_asys empty_InvA) as (_ & F2 & S2 & E2).
-      apply (finished_a_unique run amend proj _ _ Hwfa F1 F2). split.
+      apply (finished_a_unique run amend fails proj _ _ Hwfa F1 F2). split.
       - intros p Hpo. rewrite (S1 p Hpo), (S2 p Hpo). reflexivity.
       - intros n. rewrite E1, E2. reflexivity.
     Qed.
